@@ -15,8 +15,30 @@ import (
 type (
 	Locker = sync.Locker
 	Pool   = sync.Pool
-	Map    = sync.Map
 )
+
+// Map is sync.Map with every operation preceded by an always-enabled scheduling point: a lock-free cache on the
+// request path is interleaved like any other shared structure.
+type Map struct{ m sync.Map }
+
+func mpt(m *Map) { vsched.Point(vsched.KAtomic, m, nil) }
+
+func (m *Map) Load(key any) (any, bool)           { mpt(m); return m.m.Load(key) }
+func (m *Map) Store(key, value any)               { mpt(m); m.m.Store(key, value) }
+func (m *Map) Delete(key any)                     { mpt(m); m.m.Delete(key) }
+func (m *Map) Clear()                             { mpt(m); m.m.Clear() }
+func (m *Map) Range(f func(key, value any) bool)  { mpt(m); m.m.Range(f) }
+func (m *Map) Swap(key, value any) (any, bool)    { mpt(m); return m.m.Swap(key, value) }
+func (m *Map) LoadAndDelete(key any) (any, bool)  { mpt(m); return m.m.LoadAndDelete(key) }
+func (m *Map) CompareAndDelete(key, old any) bool { mpt(m); return m.m.CompareAndDelete(key, old) }
+func (m *Map) LoadOrStore(key, value any) (any, bool) {
+	mpt(m)
+	return m.m.LoadOrStore(key, value)
+}
+func (m *Map) CompareAndSwap(key, old, new any) bool {
+	mpt(m)
+	return m.m.CompareAndSwap(key, old, new)
+}
 
 var (
 	gmu sync.Mutex
